@@ -452,6 +452,24 @@ func (it *Interp) run(fn *ssa.Function, args []IVal, depth int) ([]IVal, error) 
 					env[x] = IStr(o.S)
 				case o.K == ivStr && toSlice:
 					env[x] = IBytes(o.S)
+				case o.K == ivSlice && tb != nil && tb.Info()&types.IsString != 0:
+					// string(b) of a byte slice backed by an array whose elements are all evident
+					if el, ok := sliceElems(o); ok {
+						bs := make([]byte, 0, len(el))
+						good := true
+						for _, e := range el {
+							if e.K != ivInt {
+								good = false
+								break
+							}
+							bs = append(bs, byte(e.I))
+						}
+						if good {
+							env[x] = IStr(string(bs))
+							break
+						}
+					}
+					env[x] = IVal{K: ivOpaque, S: "convert " + o.String()}
 				case o.K == ivNil && tb != nil && tb.Info()&types.IsString != 0:
 					env[x] = IStr("")
 				default:
@@ -741,6 +759,36 @@ func (it *Interp) call(x *ssa.Call, get func(ssa.Value) IVal, depth int) (IVal, 
 				return IInt(a.Hi - a.Lo), nil
 			case ivAgg:
 				return IInt(a.P.N), nil
+			}
+		case "copy":
+			dst, src := get(x.Call.Args[0]), get(x.Call.Args[1])
+			if dst.K == ivSlice && dst.P != nil && dst.P.Elems != nil {
+				var data []IVal
+				switch src.K {
+				case ivStr, ivBytes:
+					for i := 0; i < len(src.S); i++ {
+						data = append(data, IInt(int64(src.S[i])))
+					}
+				case ivSlice:
+					if el, ok := sliceElems(src); ok {
+						data = el
+					} else {
+						return IVal{K: ivOpaque, S: "builtin copy"}, nil
+					}
+				case ivNil:
+				default:
+					return IVal{K: ivOpaque, S: "builtin copy"}, nil
+				}
+				n := int64(len(data))
+				if dst.Hi-dst.Lo < n {
+					n = dst.Hi - dst.Lo
+				}
+				for i := int64(0); i < n; i++ {
+					if e := dst.P.Elems[dst.Lo+i]; e != nil {
+						e.V = data[i]
+					}
+				}
+				return IInt(n), nil
 			}
 		}
 		return IVal{K: ivOpaque, S: "builtin " + b}, nil
